@@ -6,6 +6,7 @@ nothing in /repo is edited.
 from __future__ import annotations
 
 import collections
+import copy
 import inspect
 import os
 import sys
@@ -445,7 +446,9 @@ class Contracts:
                         if cp in seen:
                             K.fail("K3", f"duplicate path {p!r}")
                         seen.append(cp)
-                    plain = orig_gd(self, data, False)
+                    # asked of a shallow COPY of the path object: a second call on the monitored object itself would
+                    # overwrite whatever the object remembers of the first (an observer effect that hid seeded break C05-r)
+                    plain = orig_gd(copy.copy(self), data, False)
                     pv = plain if not (self.is_concrete or self.MULTI_TYPE.name in
                                        ("FIRST", "LAST", "SINGLE")) else [plain]
                     if canon([v for v, _ in pairs]) != canon(list(pv)):
